@@ -365,6 +365,7 @@ fn analyse(name: &str, log: &[String]) -> Option<Instance> {
         "jobs": names.len(),
         "first_pairs": pl.iter().take(5).map(|(a, b)| format!("{} before {}", names[*a as usize], names[*b as usize])).collect::<Vec<_>>(),
         "handler_reads_overlapping_a_writer": racy_handler_reads,
+        "id_names": names,
     });
     Some(Instance { coq, jobs: names.len(), events: trace.len(), pairs: pl.len() + hl.len(), dynamic_jobs, sample })
 }
@@ -524,7 +525,8 @@ fn main() {
         }
         if let Some(inst) = analyse(name, &log) {
             sizes.push(inst.jobs);
-            emit_case(id, if name.starts_with("generated") { "generated" } else { "corpus" }, inst.coq, None, inst.dynamic_jobs > 0 || inst.jobs > 60,
+            let show = inst.coq.replacen("check_instance", "search_instance", 1);
+            emit_case(id, if name.starts_with("generated") { "generated" } else { "corpus" }, inst.coq, Some(show), inst.dynamic_jobs > 0 || inst.jobs > 60,
                 format!("{name}"), json!({"source": name, "jobs": inst.jobs, "events": inst.events, "ordered_pairs": inst.pairs, "dynamic_jobs": inst.dynamic_jobs, "sample": inst.sample}));
             id += 1;
         }
